@@ -27,6 +27,14 @@ func runIDs(x *X) {
 		cfg.RequestID.Header = []string{"X-Correlation-Id", "x-req", "Request-Id"}[c.Intn(3, "rh")]
 		cfg.Trace.Header = []string{"Traceparent-Lite", "X-B3-TraceId", "x-trace"}[c.Intn(3, "th")]
 	}
+	// one header name for both identifiers (an operator's choice the configuration accepts): whichever
+	// feature is enabled must still do its job on that header
+	shared := c.Intn(6, "shared-header-name") == 0
+	if shared {
+		nm := []string{"X-Correlation-Id", "X-Request-ID", "x-request-id"}[c.Intn(3, "shared-name")]
+		cfg.RequestID.Header = nm
+		cfg.Trace.Header = []string{nm, strings.ToUpper(nm)}[c.Intn(2, "shared-case")]
+	}
 	rh, th := logging.RequestHeaderName(cfg), logging.TraceHeaderName(cfg)
 	tasks := 1 + c.Intn(8, "tasks")
 	per := 5 + c.Intn(60, "per")
@@ -73,6 +81,9 @@ func runIDs(x *X) {
 				sp.trace = supplied[c.Intn(len(supplied), "strace")]
 				// a proxy in front may have added its own line: the header arrives on two lines
 				sp.lines = []int{1, 1, 1, 2, 3}[c.Intn(5, "id-lines")]
+				if shared {
+					sp.req = sp.trace // one header, one value
+				}
 			}
 			specs = append(specs, sp)
 		}
@@ -148,6 +159,15 @@ func runIDs(x *X) {
 		}
 	}
 	for _, r := range results {
+		if shared && cfg.RequestID.Enabled != cfg.Trace.Enabled {
+			// the header belongs to the enabled feature
+			if cfg.RequestID.Enabled {
+				check("request-id", true, r.inReq, r.hReq, r.outReq, r.hadReq, r.emptyFirst)
+			} else {
+				check("trace-id", true, r.inTrace, r.hTrace, r.outTrace, r.hadTrace, r.emptyFirst)
+			}
+			continue
+		}
 		check("request-id", cfg.RequestID.Enabled, r.inReq, r.hReq, r.outReq, r.hadReq, r.emptyFirst)
 		check("trace-id", cfg.Trace.Enabled, r.inTrace, r.hTrace, r.outTrace, r.hadTrace, r.emptyFirst)
 	}
